@@ -80,7 +80,7 @@ def run_gen():
 def _vfiles():
     res = []
     for root, dirs, files in os.walk(COQ):
-        dirs[:] = [d for d in dirs if not d.startswith(".")]
+        dirs[:] = [d for d in dirs if not d.startswith(".") and not d.startswith("scratch")]
         for f in files:
             if f.endswith(".v") and not f.startswith("."):
                 res.append(os.path.relpath(os.path.join(root, f), COQ))
